@@ -43,7 +43,7 @@ const (
 	ok outcomeT = iota
 	status5xx
 	transportErr
-	throttled // 429 with a Retry-After header
+	throttled    // 429 with a Retry-After header
 	status5xxCut // error status whose response body cannot be read to its end
 )
 
